@@ -99,6 +99,9 @@ class Env:
     self.res = seams.ResourceSeam(overlay)
     self.res.install()
     self.storage_counters = {}
+    self.alloc = seams.AllocFault()
+    if plan["kind"] in ("ec", "ecdsa"):
+      self.alloc.install()
     self.armed = None
     self.constructed = {}
     self._set_knobs(knobs)
@@ -266,7 +269,8 @@ def subject_segment(plan, start, pool_bytes):
       batch = op["batch"]
       arts = [pool_arts[j] for j in batch] if name != "bad_call" else \
           op["arts"]
-      fired0 = len(env.res.fired) + env.storage_counters.get("fired", 0)
+      fired0 = (len(env.res.fired) + env.storage_counters.get("fired", 0) +
+                env.alloc.fired)
       ev["armed"] = env.armed is not None
       ev["state_before"] = state_probe()
       if name == "bad_call":
@@ -287,7 +291,7 @@ def subject_segment(plan, start, pool_bytes):
         if kind == "ecdsa" and op.get("issuer_oracle"):
           ev["issuer_oracle"] = issuer_oracle(arts)
       ev["fired"] = (len(env.res.fired) + env.storage_counters.get("fired", 0)
-                     - fired0)
+                     + env.alloc.fired - fired0)
       ev["state_after"] = state_probe()
     elif name == "clone":
       for j in op["batch"]:
@@ -308,6 +312,8 @@ def subject_segment(plan, start, pool_bytes):
       if op["kind"] in ("open_oserror", "open_torn"):
         env.res.arm({op["k"]: "oserror" if op["kind"] == "open_oserror"
                      else "torn"})
+      elif op["kind"] == "alloc_fail":
+        env.alloc.arm(op["method"], op["k"])
       elif op["kind"] == "storage_raise":
         env.storage_counters["armed"] = True
         env.storage_counters["armed_at"] = env.storage_counters.get(
@@ -315,6 +321,7 @@ def subject_segment(plan, start, pool_bytes):
       env.armed = op["kind"]
     elif name == "heal":
       env.res.heal()
+      env.alloc.heal()
       env.storage_counters["armed"] = False
       env.armed = None
     elif name == "curve_op":
@@ -331,6 +338,7 @@ def subject_segment(plan, start, pool_bytes):
           "next": nxt, "clock": env.clock.stats(),
           "faults_fired": [list(f) for f in env.res.fired],
           "storage_fired": env.storage_counters.get("fired", 0),
+          "alloc_fired": env.alloc.fired,
           "resource_opens": env.res.total_opens,
           "log_counts": seams.log_counts()}
 
